@@ -306,6 +306,14 @@ func derivesFrom(v ssa.Value, pred func(ssa.Value) bool, depth int) bool {
 		case *ssa.Extract:
 			return rec(x.Tuple, d+1)
 		case *ssa.UnOp:
+			// a load of a local (named results spilled for defer): follow what was stored into it
+			if al, ok := x.X.(*ssa.Alloc); ok && al.Referrers() != nil {
+				for _, r := range *al.Referrers() {
+					if st, ok := r.(*ssa.Store); ok && st.Addr == ssa.Value(al) && rec(st.Val, d+1) {
+						return true
+					}
+				}
+			}
 			return rec(x.X, d+1)
 		case *ssa.Phi:
 			for _, e := range x.Edges {
